@@ -2,6 +2,7 @@ import SmVerif.Model.Proto
 import SmVerif.Model.Vlq
 import SmVerif.Model.Lookup
 import SmVerif.Model.V3Spec
+import SmVerif.Model.Paths
 /-
 Line-protocol driver: one case per input line, one output line per case:
   <model>\t<spec>\t<wf>
@@ -132,6 +133,16 @@ def handle (toks : List String) : String :=
         let c := if t.rng && t.dl = q.1 then Lookup.satAdd t.sc (q.2 - t.dc) else t.sc
         s!"{i}/{showTok t}/{c}"))
     s!"{out}\t{spec}\t1"
+  | ["relpath", b, t] =>
+    let base := parseHex b
+    let target := parseHex t
+    let out := Paths.makeRel base target
+    -- C19: the returned path, resolved against the base file's directory, must give the target
+    let ordinary := (Paths.comps target).all fun c => c != Paths.DOT && c != Paths.DOTDOT
+    let good := Paths.resolve (Paths.comps base).dropLast (Paths.comps out) == Paths.comps target
+      && ((out == [46]) == (Paths.comps target == (Paths.comps base).dropLast))
+    let spec := if !ordinary then "-" else if good then s!"ok {toHex out}" else "does-not-resolve"
+    s!"ok {toHex out}\t{spec}\t1"
   | _ => "bad-op\t-\t0"
 
 partial def loop (h : IO.FS.Stream) (out : IO.FS.Stream) : IO Unit := do
